@@ -15,7 +15,7 @@ for n in range(0, 13):
         tiers=('quick', 'thorough') if n in (0, 1, 5, 8) else ('thorough',), witness=(n in (5, 8)),
         bound='every Cookie header text of exactly %d bytes (all 256^%d contents) in an exact-size heap block' % (n, n),
         desc='CookieJar::addFromRaw: memory safety, termination, only runtime_error; pairs handed to the jar == reference splitter'))
-for n in range(0, 15):
+for n in range(0, 12):
     HARNESSES.append(dict(name='fromraw_n%d' % n, units=['cookie'], file='c17_cookie.c', defs={'H_SAFE': None, 'NN': n}, unwind=n + 3, unwindset=US, outer_unwind=max(2, n - 1),
         tiers=('quick', 'thorough') if n in (0, 2, 7) else ('thorough',), witness=(n in (7, 10)),
         bound='every Set-Cookie text of exactly %d bytes in an exact-size heap block; FullDate parser arbitrary' % n,
